@@ -26,14 +26,14 @@ pub(crate) fn all_zero_intvector<T>(element_bits: usize, len: usize) -> IntVecto
 where
     T: BlockType + NumZero,
 {
+    // number of blocks required to store `len` elements of `element_bits` bits each
     let n_blocks = {
-        let bits = mem::size_of::<T>()
-            .checked_mul(8)
-            .expect("Table size too large")
+        let bits = element_bits
             .checked_mul(len)
             .expect("Table size too large");
-        let blocks = bits / element_bits;
-        let res = bits % element_bits;
+        let block_bits = mem::size_of::<T>() * 8;
+        let blocks = bits / block_bits;
+        let res = bits % block_bits;
         if res != 0 {
             blocks + 1
         } else {
